@@ -2348,3 +2348,66 @@ func RRuneIdx(c *core.Ctx) {
 		c.Anchor("index expressions whose index is a rune")
 	}
 }
+
+// R-LMALT: a landmark with several alternatives reports its smallest end.
+func RLmAlt(c *core.Ctx) {
+	c.Rule("R-LMALT", "the search for the next occurrence of a required landmark looks at every alternative (no return from inside the loop over landmark.Alternatives) and keeps the smallest End (a comparison between two End values): the next landmark of the chain is searched from that End, and a failed search ends the whole scan with 'no match', so an End taken from the first alternative that happens to match (`abc` before `a`, or `abc` at 1 before `b` at 2) rejects texts the pattern matches", 1)
+	p := c.P
+	root := p.Pkg("regexp2")
+	if root == nil {
+		c.Anchor("package regexp2")
+		return
+	}
+	info := root.TypesInfo
+	alts := p.LookupField("syntax", "RequiredLandmark", "Alternatives")
+	endF := p.LookupField("regexp2", "requiredLandmarkMatch", "End")
+	if alts == nil || endF == nil {
+		c.Anchor("syntax.RequiredLandmark.Alternatives / requiredLandmarkMatch.End")
+		return
+	}
+	n := 0
+	for _, fd := range p.FuncDecls(root) {
+		if fd.Body == nil || p.IsTestFile(fd.Pos()) {
+			continue
+		}
+		name := core.DeclName(root, fd)
+		ast.Inspect(fd.Body, func(x ast.Node) bool {
+			rs, ok := x.(*ast.RangeStmt)
+			if !ok || core.FieldOf(info, rs.X) != alts {
+				return true
+			}
+			n++
+			c.Visit(name)
+			returns := false
+			ast.Inspect(rs.Body, func(y ast.Node) bool {
+				if _, ok := y.(*ast.FuncLit); ok {
+					return false
+				}
+				if _, ok := y.(*ast.ReturnStmt); ok {
+					returns = true
+				}
+				return true
+			})
+			c.Check(!returns, fmt.Sprintf("%s / loop over the alternatives of a landmark #%d looks at all of them", name, n), rs.Pos(), "the loop returns the first alternative that matches: its End need not be the smallest one")
+			cmp := false
+			ast.Inspect(fd.Body, func(y ast.Node) bool {
+				be, ok := y.(*ast.BinaryExpr)
+				if !ok {
+					return true
+				}
+				switch be.Op {
+				case token.LSS, token.LEQ, token.GTR, token.GEQ:
+					if core.FieldOf(info, be.X) == endF && core.FieldOf(info, be.Y) == endF {
+						cmp = true
+					}
+				}
+				return true
+			})
+			c.Check(cmp, fmt.Sprintf("%s / loop over the alternatives of a landmark #%d keeps the smallest End", name, n), rs.Pos(), "no comparison between the End of two candidate occurrences in this function")
+			return true
+		})
+	}
+	if n == 0 {
+		c.Anchor("a loop over RequiredLandmark.Alternatives in package regexp2")
+	}
+}
